@@ -1667,6 +1667,14 @@ PIP_Decision_Node::ascii_load(std::istream& s) {
     return false;
   }
 
+  // The loaded children (if any) are children of this node.
+  if (true_child != nullptr) {
+    true_child->set_parent(this);
+  }
+  if (false_child != nullptr) {
+    false_child->set_parent(this);
+  }
+
   // Loaded all info.
   PPL_ASSERT(OK());
   return true;
